@@ -600,6 +600,7 @@ func main() {
 	db := flag.String("db", "", "internal: db file of the child")
 	probe := flag.String("probe", "", "internal: side probe name")
 	replay := flag.String("replay", "", "replay the op lines of this file against the implementation")
+	flag.IntVar(&noDataPct, "nodata", 1, "percent of inserted points / update items with zero-length Data (the search step raises it)")
 	flag.Parse()
 	switch {
 	case *replay != "":
@@ -624,6 +625,7 @@ func main() {
 		if *thorough {
 			args = append(args, "-thorough")
 		}
+		args = append(args, "-nodata", fmt.Sprint(noDataPct))
 		so, se, _ := runWorker(exe, args, 180*time.Second)
 		done := false
 		var lines []string
